@@ -48,6 +48,7 @@ def parse(path):
     return groups
 
 REGS = {"AX", "BX", "CX", "DX", "SI", "DI", "R8", "R10", "R11", "R12", "R13"}
+BYTE_REGS = {"CL": "CX"}
 XREGS = {"X0", "X1", "X2"}
 
 
@@ -65,8 +66,16 @@ def instr_ast(mnem, ops):
     r = lambda x: "." + x if x in REGS else (_ for _ in ()).throw(ValueError("reg " + x))
     xr = lambda x: "." + x if x in XREGS else (_ for _ in ()).throw(ValueError("xreg " + x))
     li = lambda i: str(i) if i >= 0 else "(%d)" % i
-    if mnem in ("TESTQ", "BSFL", "CMPL", "MOVL", "SHLL") and len(o) == 2 and o[0] in REGS:
+    o = [BYTE_REGS.get(x, x) for x in o]
+    if mnem in ("TESTQ", "BSFL", "CMPL", "MOVL", "SHLL", "MOVB", "SALQ", "SARQ", "SUBQ", "ANDQ", "POPCNTL") and len(o) == 2 and o[0] in REGS:
         return ".%s %s %s" % (mnem, r(o[0]), r(o[1]))
+    if mnem == "SUBQ" and o[0].startswith("$"):
+        return ".SUBQi %d %s" % (int(o[0][1:], 0), r(o[1]))
+    if mnem == "MOVQ" and o[0].startswith("$") and o[1] in REGS:
+        v = int(o[0][1:], 0)
+        if v < 0:
+            raise ValueError("negative immediate to register")
+        return ".MOVQri %d %s" % (v, r(o[1]))
     if mnem == "TESTW" and o[0].startswith("$"):
         return ".TESTW %d %s" % (int(o[0][1:], 0), r(o[1]))
     if mnem == "SHRL" and o[0].startswith("$"):
@@ -111,7 +120,7 @@ def small_prog(path, sym):
         if m:
             label = m.group(1)
             continue
-        if cur_sym != sym or label not in ("small", "endofpage", "failure"):
+        if cur_sym != sym or label not in ("small", "endofpage", "failure", "endzero"):
             continue
         parts = line.split(None, 1)
         if label not in blocks:
@@ -149,7 +158,9 @@ def main():
     # modelled subset is reported as a translator failure
     for f, sym in [("internal/bytealg/indexbyte_go122_amd64.s", "indexbytebody"),
                    ("internal/bytealg/indexbyte_go122_amd64.s", "indexbytebodyCase"),
-                   ("internal/bytealg/index_non_ascii_go122_amd64.s", "indexByteBodyNonASCII")]:
+                   ("internal/bytealg/index_non_ascii_go122_amd64.s", "indexByteBodyNonASCII"),
+                   ("internal/bytealg/count_go122_amd64.s", "countbody"),
+                   ("internal/bytealg/count_go122_amd64.s", "countbodyCase")]:
         try:
             lit = small_prog(os.path.join(repo, f), sym)
         except ValueError as e:
